@@ -177,15 +177,19 @@ CHECKS = {
         'record decisions. Repeated ids gave repeated positions: genuine defect fixed in /repo (fix: 9d9fa05).',
         '§4 C13'),
     'C15': (
-        'Coq proof (refinement of the nested-dict container to a map on unordered pairs by induction over histories; structural invariant for items/len; metadata codec round trip at string level) + per-run vm_compute correspondence and an executed CSV round trip',
+        'Coq proof (refinement of the nested-dict container to a map on unordered pairs by induction over histories; structural invariant for items/len; metadata codec; CSV row codec = writer + reader state machine; FILE-level to_csv / from_csv text model with round-trip theorem through the universal-newline layer; rebuild theorem; end-to-end container round trip) + per-run vm_compute correspondence (histories, codecs, whole files well-formed and malformed) and an executed CSV round trip',
         'Machine-checked theorems for EVERY history of set_similarity calls and any value type with a zero and a sign test: get(a,b) = get(b,a) = the last '
         'accepted value written to the unordered pair {a,b}, else 0; a negative value raises and changes nothing; items lists every stored unordered pair '
         'exactly once (normalised order, current value) and len = |items|; a pair is stored iff an accepted write touched it. Metadata: every non-empty '
-        'key-unique map without ; = CR LF encodes to a single line, frames/unframes and decodes to itself; any reserved character is rejected. '
-        'Correspondence: all histories of length <=2 (quick) / <=3 (thorough) over 27 operations with a full read-back after every step, random long '
-        'histories over 7 key alphabets and extreme values. PARTIAL (runtime codec): the CSV row codec, float repr and gzip are exercised by an executed '
-        '.csv/.csv.gz round trip compared by float.hex, not proved.',
-        'Trusted: Coq kernel + vm_compute; str <= as bytewise order on UTF-8; float sign read off float.hex tokens. Two genuine defects fixed in /repo: '
+        'key-unique map without ; = CR LF encodes to a single line, frames/unframes and decodes to itself; any reserved character is rejected. CSV: every row '
+        'without line breaks is read back unchanged (commas, quotes, #, blanks, empty fields); the FILE to_csv writes (comment lines, column names, CR LF rows) read '
+        'through the universal-newline handle gives back exactly the header lines and the rows in order; re-inserting the listed items reproduces the container (same '
+        'value for every pair in either order, same len, same items); composed: history -> container -> file -> from_csv -> container is the identity on similarities, '
+        'for any repr/float oracle pair with float(repr(v)) = v. Correspondence: all histories of length <=2 (quick) / <=3 (thorough) over 27 operations with a full '
+        'read-back after every step, random long histories over 7 key alphabets and extreme values, row codec, whole written files, from_csv on 220/900 whole files (65% mostly valid, '
+        '35% malformed) vs the file-level model (metadata + items or exception class). PARTIAL (runtime codec): float repr / float() and gzip are an oracle; the real '
+        '.csv/.csv.gz round trip is executed and compared by float.hex.',
+        'Trusted: Coq kernel + vm_compute; str <= as bytewise order on UTF-8; float sign / validity / value read off a per-file table computed by Python. Two genuine defects fixed in /repo: '
         'line breaks in metadata (fix: 435735a), rows with #-keys dropped by from_csv (fix: b0ef295).',
         '§4 C15'),
     'C16': (
